@@ -132,7 +132,7 @@ func New(r *rand.Rand, v *Vocab, o Options) *G {
 var plainStrings = []string{"a", "pet", "Pet Store", "v1.0", "text/plain", "application/json", "2.0.1", "some description", "x", "id", "name"}
 var nastyStrings = []string{"say \"hi\"", "back\\slash", "tab\there", "new\nline", "é", "日本語", "<tag>&amp;", " sep", "\u0001ctl", "a/b~c", "100%", "^[a-z]+\\d*$", "emoji🙂", "null", "true", "0", " lead", "trail "}
 var plainNames = []string{"a", "b", "pet", "Pet", "tag", "item", "n1", "id2", "value", "data"}
-var nastyNames = []string{"a\"b", "a\\b", "a\nb", "tab\tname", "é", "名前", "^a\\d+$", "[a-z]+", "a/b", "a~b", "a%20b", "a b", "{x}", "a#b", "a?b", "<x>", "a&b", " ", "x-notext", "X-upper", "$dollar", "0", "00", "-1", "a.b", "a\":1,\"b"}
+var nastyNames = []string{"bell\u0007x", "del\u007f", "\U000e0001tag", "a\"b", "a\\b", "a\nb", "tab\tname", "é", "名前", "^a\\d+$", "[a-z]+", "a/b", "a~b", "a%20b", "a b", "{x}", "a#b", "a?b", "<x>", "a&b", " ", "x-notext", "X-upper", "$dollar", "0", "00", "-1", "a.b", "a\":1,\"b"}
 var extraKeywords = []string{"unknownKeyword", "custom", "$comment", "contentMediaType", "const", "if", "then", "meta-data", "vendor", "zzz"}
 var extNames = []string{"x-a", "x-vendor", "x-go-name", "x-nullable", "x-UPPER", "x-", "x-with space", "x-ünï", "x-a\"q", "x-order2"}
 var refPool = []string{"#/definitions/a", "#/definitions/b", "other.json#/definitions/c", "sub/other.json", "http://example.com/s.json#/definitions/d",
